@@ -117,6 +117,10 @@ def pproof(pid: str, func: str, props: List[str], file: str = PARSER, must=None,
                 res.error = "target not found: %r" % (e,)
             except EN.Unsupported as e:
                 res.error = "unsupported construct: %s" % (e,)
+                try:
+                    res.obls = E.obls       # keep what was generated before the engine gave up (refutations still count)
+                except NameError:
+                    pass
             except Exception as e:
                 res.error = "engine exception: %r\n%s" % (e, traceback.format_exc(limit=-6))
             return res
@@ -299,6 +303,15 @@ class AbsScopes:
             if k.stop is None and k.step is None and k.start is not None and not self.rev:
                 return AbsScopes(self.lo + lift(k.start, self.lo), self.hi, self.has)
             raise EN.Unsupported("slice %r of the abstract scope stack" % (k,))
+        if isinstance(k, SymInt) and not self.rev:
+            j = self.lo + lift(k, self.lo)
+            EN.cur().oblige("index-in-range:scope_stack[sym]", z3.And(j >= self.lo, j < self.hi), kind="index-in-range")
+            return AbsScope(j, self.has)
+        if isinstance(k, int) and not self.rev:
+            # direct indexing (k >= 0 from the bottom, k < 0 from the top); in range is an obligation
+            j = (self.lo + k) if k >= 0 else (self.hi + k)
+            EN.cur().oblige("index-in-range:scope_stack[%d]" % k, z3.And(j >= self.lo, j < self.hi), kind="index-in-range")
+            return AbsScope(j, self.has)
         raise EN.Unsupported("indexing the abstract scope stack outside the cut loop")
 
     def __reversed__(self):
@@ -373,7 +386,7 @@ def _lookup(E, PM, A, vc):
     del LOOKUPS[:]
     n, start = E.fresh("n", "int"), E.fresh("start", "int")
     has = z3.Function("has", z3.IntSort(), z3.BoolSort())
-    E.assume(z3.And(0 <= start, start <= n, n <= 64))
+    E.assume(z3.And(0 <= start, start < n, n <= 64))       # the current file's Proto scope is always on the stack
     ps = PM.Parser.__new__(PM.Parser)
     full = AbsScopes(z3.IntVal(0), n, has)
     ps.scope_stack = full                       # the whole stack, including the importing files' scopes [0, start)
@@ -382,9 +395,10 @@ def _lookup(E, PM, A, vc):
     sp = LookupLoop()
     sp.bind(n, start, has)
     vc.specs["loop1"] = sp
-    r = ps._lookup_referenced_member("Outer.Inner")
+    ident = "Outer.Inner" if E.branch(E.fresh("dotted", "bool")) else "Name"
+    r = ps._lookup_referenced_member(ident)
     j = z3.Int("j")
-    ok_names = all(names == ("Outer", "Inner") for _, names in LOOKUPS)
+    ok_names = all(names == tuple(ident.split(".")) for _, names in LOOKUPS)
     E.oblige("post:names", z3.BoolVal(ok_names))
     if r is None:
         E.oblige("post:none", z3.ForAll([j], z3.Implies(z3.And(j >= start, j < n), z3.Not(has(j)))))
@@ -395,7 +409,7 @@ def _lookup(E, PM, A, vc):
         E.oblige("post:innermost", False)
 
 
-@pproof("py:parser.scope_stack_in_current_proto", "Parser.scope_stack_in_current_proto", ["C11"], must=["post:suffix"])
+@pproof("py:parser.scope_stack_in_current_proto", "Parser.scope_stack_in_current_proto", ["C11", "C17"], must=["post:suffix"])
 def _ssicp(E, PM, A):
     """returns exactly the scopes pushed since this (possibly imported) file started: scope_stack[init_length:]"""
     ps = PM.Parser.__new__(PM.Parser)
@@ -404,7 +418,7 @@ def _ssicp(E, PM, A):
         ps.scope_stack = list(objs)
         ps.scope_stack_init_length = k
         r = ps.scope_stack_in_current_proto()
-        E.oblige("post:suffix[%d]" % k, z3.BoolVal(tuple(r) == tuple(objs[k:])))
+        E.oblige("post:suffix[%d]" % k, z3.BoolVal(tuple(r) == tuple(objs[k:])), props=["C11"])
     # a child parser shares the parent's stack and starts after it
     ps2 = PM.Parser.__new__(PM.Parser)
     ps2.scope_stack = list(objs[:3])
@@ -447,6 +461,11 @@ def _get_member(E, PM, A):
              (("Outer", "Inner", "E", "Z"), None), (("outer",), None)]
     for names, want in cases:
         E.oblige("post:%s" % ".".join(names), z3.BoolVal(proto.get_member(*names) is want))
+    # an open scope gives no stale answer: a name that was missing is found once it has been declared
+    late = A.Enum(name="Nope", type=A.Uint(cap=6), _bound=proto)
+    outer.push_member(late)
+    E.oblige("post:no-stale-miss", z3.BoolVal(proto.get_member("Outer", "Nope") is late and outer.get_member("Nope") is late))
+    E.oblige("post:still-missing", z3.BoolVal(outer.get_member("Never") is None))
 
 
 def _refs(kind):
